@@ -184,13 +184,14 @@ def tlc_cases(ctx):
     Returns the list of distinct emitted cases."""
     from concurrent.futures import ThreadPoolExecutor
 
-    sim_n = 60 if ctx.quick else 800          # behaviours per TLC worker
+    sim_n = 60 if ctx.quick else 1500          # behaviours per TLC worker
     W = max(2, core.NCPU // 2)
     jobs = [
         ("exhaustive", "Optimizer_quick.cfg" if ctx.quick else "Optimizer_thorough.cfg", dict(workers=W, timeout=3000)),
         ("simulate", "Optimizer_sim.cfg" if ctx.quick else "Optimizer_sim5.cfg",
          dict(workers=W, simulate=f"num={sim_n}", depth=100, seed=ctx.seed + 1, timeout=3000)),
         ("steps", "Optimizer_steps.cfg", dict(workers=4, timeout=1500)),
+    ] + ([] if ctx.quick else [("exhaustive3", "Optimizer_thorough3.cfg", dict(workers=W, timeout=3000))]) + [
         ("vacuity", "Optimizer_vacuity.cfg", dict(workers=2, timeout=900)),
         ("canfail_sameshape", "Optimizer_canfail_sameshape.cfg", dict(workers=4, timeout=900)),
         ("canfail_transpose", "Optimizer_canfail_transpose.cfg", dict(workers=4, timeout=900)),
@@ -204,7 +205,7 @@ def tlc_cases(ctx):
         if isinstance(res, Exception):
             raise res
         ctx.tlc(res, f"{cfg} ({label})")
-        if label in ("exhaustive", "simulate", "steps"):
+        if label in ("exhaustive", "exhaustive3", "simulate", "steps"):
             if res.violated or not res.ok:
                 raise core.MachineryError(f"TLC reports {res.violated} on {cfg}: the design level of Optimizer.tla violates the property\n{res.out[-2500:]}")
             for pr in res.printed:
@@ -824,10 +825,6 @@ def lift(m, gin, ins, mode, rec=None):
     raise ValueError(mode)
 
 
-def _ort_vals(xs):
-    return xs
-
-
 def replay_library(arg):
     """arg = (rel path, lift modes, variant names, want_abstract, tolerance).  Observations per (mode, variant)."""
     import onnx
@@ -928,9 +925,16 @@ def select_cases(ctx, cases, n_quick):
     input / symbolic world (bounded), then a seeded sample of the rest; thorough: all"""
     import random
 
-    if not ctx.quick:
-        return cases
     rng = random.Random(ctx.seed)
+    if not ctx.quick:
+        # everything except the depth-3 enumeration, of which a seeded sample (deviating cases first) is replayed
+        deep = [c for c in cases if c["src"] == "exhaustive3"]
+        rest = [c for c in cases if c["src"] != "exhaustive3"]
+        dev = [c for c in deep if c["used"] or c["raised"]]
+        plain = [c for c in deep if not (c["used"] or c["raised"])]
+        rng.shuffle(dev)
+        rng.shuffle(plain)
+        return rest + dev[:1500] + plain[:4500]
     dev = [c for c in cases if c["used"] or c["raised"]]
     rest = [c for c in cases if not (c["used"] or c["raised"])]
     rich = [c for c in rest if c["src"] == "simulate"]
